@@ -56,10 +56,16 @@ def Db.packetsTotalB (d : Db) : Bool :=
 
 -- ---- histories -------------------------------------------------------------------------------------------------------
 
+/-- `mkBlock` / `mkFrame` carry the `lenient` argument of cif_create_block_internal / cif_container_create_frame_internal (cif.c,
+    container.c): `false` = the public cif_create_block / cif_container_create_frame (code validated by cif_normalize_name, then
+    normalised); `true` = the call the parser makes after its error callback accepted CIF_INVALID_BLOCKCODE / CIF_INVALID_FRAMECODE
+    and for the anonymous block: validity NOT checked (cif_normalize instead of cif_normalize_name), the code still normalised, the
+    duplicate test on the normalised code unchanged.  (A NULL code is never passed with `lenient = true`; the executors do not send
+    one.) -/
 inductive Op where
   | cifNew | cifDel (c : Nat)
-  | mkBlock (c : Nat) (n : Option Name) | getBlock (c : Nat) (n : Name) | blocks (c : Nat)
-  | mkFrame (h : Nat) (n : Option Name) | getFrame (h : Nat) (n : Option Name) | frames (h : Nat)
+  | mkBlock (c : Nat) (n : Option Name) (lenient : Bool := false) | getBlock (c : Nat) (n : Name) | blocks (c : Nat)
+  | mkFrame (h : Nat) (n : Option Name) (lenient : Bool := false) | getFrame (h : Nat) (n : Option Name) | frames (h : Nat)
   | cdestroy (h : Nat) | code (h : Nat) | isBlock (h : Nat)
   | mkLoop (h : Nat) (cat : Option Str) (names : List Name) | catLoop (h : Nat) (cat : Option Str)
   | itemLoop (h : Nat) (n : Option Name) | loops (h : Nat) | prune (h : Nat)
@@ -157,11 +163,11 @@ def step (w : World) (op : Op) : World × Result :=
          lhs := w.lhs.map (fun e => match e with | some e => if e.cif == c then none else some e | none => none),
          its := w.its.map (fun e => match e with | some e => if e.cif == c then none else some e | none => none) },
        { rc := some CIF_OK })
-  | .mkBlock c n =>
+  | .mkBlock c n lenient =>
     match w.liveC c with
     | none => ({ w with chs := w.chs ++ [none] }, skipped)
     | some s =>
-      let (s1, r) := createBlock s n
+      let (s1, r) := createBlock s n lenient
       ({ (w.setCif c s1) with chs := w.chs ++ [match r with | .ok h => some { cif := c, h := h } | .error _ => none] }, { rc := some (codeOf r) })
   | .getBlock c n =>
     match w.liveC c with
@@ -175,11 +181,11 @@ def step (w : World) (op : Op) : World × Result :=
     | some s =>
       let (s1, r) := allBlocks s
       (w.setCif c s1, { rc := some (codeOf r), out := match r with | .ok hs => .strs (hs.map (·.code)) | .error _ => .unit })
-  | .mkFrame h n =>
+  | .mkFrame h n lenient =>
     match w.liveH h with
     | none => ({ w with chs := w.chs ++ [none] }, skipped)
     | some (e, s) =>
-      let (s1, r) := createFrame s e.h n
+      let (s1, r) := createFrame s e.h n lenient
       ({ (w.setCif e.cif s1) with chs := w.chs ++ [match r with | .ok h' => some { cif := e.cif, h := h' } | .error _ => none] }, { rc := some (codeOf r) })
   | .getFrame h n =>
     match w.liveH h with
